@@ -1,5 +1,12 @@
+import contextlib
 import signal
 from . import ConductorAbort
+
+# While an operation is being started, an abort is noted and raised only once
+# the operation has been registered as in-flight. Otherwise a process that was
+# just spawned (but is not yet known to the executor) would be left running.
+_defer_depth = 0
+_abort_pending = False
 
 
 def register_signal_handlers():
@@ -7,5 +14,26 @@ def register_signal_handlers():
     signal.signal(signal.SIGTERM, _terminate_handler)
 
 
+@contextlib.contextmanager
+def abort_deferred():
+    """
+    An abort signal that arrives while the body runs is raised (as a
+    `ConductorAbort`) when the body is left.
+    """
+    global _defer_depth, _abort_pending
+    _defer_depth += 1
+    try:
+        yield
+    finally:
+        _defer_depth -= 1
+        if _defer_depth == 0 and _abort_pending:
+            _abort_pending = False
+            raise ConductorAbort()
+
+
 def _terminate_handler(sig, frame):
+    global _abort_pending
+    if _defer_depth > 0:
+        _abort_pending = True
+        return
     raise ConductorAbort()
